@@ -32,7 +32,7 @@ theorem Qvec_eq_ki_sub_kf (lam : ℝ) (bi bf : V3 ℝ) (hl : 0 < lam) (hi : 0 < 
       ∧ V3.norm (V3.smul (2 * Real.pi / lam) (V3.normalize bf)) = 2 * Real.pi / lam := by
   have hk : 0 ≤ 2 * Real.pi / lam := by positivity
   refine ⟨?_, ?_, ?_⟩
-  · simp only [qElements, V3.sub, V3.smul, V3.normalize, V3.sdiv, twoPi_real, V3.mk.injEq]
+  · simp only [qElements, qElementsCast, V3.sub, V3.smul, V3.normalize, V3.sdiv, twoPi_real, V3.mk.injEq]
     refine ⟨?_, ?_, ?_⟩ <;> ring
   · rw [norm_smul _ hk, norm_normalize bi hi, mul_one]
   · rw [norm_smul _ hk, norm_normalize bf hf, mul_one]
@@ -43,7 +43,7 @@ theorem norm_sq_Qvec (lam : ℝ) (bi bf : V3 ℝ) (hi : 0 < V3.norm bi) (hf : 0 
       = (2 * Real.pi / lam) ^ 2 * (2 - 2 * cosAngle bi bf) := by
   have h1 := norm_mul_self bi
   have h2 := norm_mul_self bf
-  simp only [qElements, cosAngle, V3.dot, V3.sub, V3.sdiv, twoPi_real]
+  simp only [qElements, qElementsCast, cosAngle, V3.dot, V3.sub, V3.sdiv, twoPi_real]
   set ni := V3.norm bi
   set nf := V3.norm bf
   have e1 : (bi.x / ni) ^ 2 + (bi.y / ni) ^ 2 + (bi.z / ni) ^ 2 = 1 := by
@@ -83,13 +83,13 @@ theorem norm_Qvec_angle (lam : ℝ) (bi bf : V3 ℝ) (hl : 0 < lam) (hi : 0 < V3
 theorem Qvec_beam_length_invariant (lam a b : ℝ) (bi bf : V3 ℝ) (ha : 0 < a) (hb : 0 < b)
     (hi : 0 < V3.norm bi) (hf : 0 < V3.norm bf) :
     qElements lam (V3.smul a bi) (V3.smul b bf) = qElements lam bi bf := by
-  simp only [qElements]
+  simp only [qElements, qElementsCast]
   rw [normalize_smul a ha bi hi, normalize_smul b hb bf hf]
 
 /-- the vector rotates with the beamline: for every orthogonal `R`, `Q⃗(R b_i, R b_f) = R·Q⃗(b_i, b_f)` -/
 theorem Qvec_rotates (lam : ℝ) (r : M3 ℝ) (hr : IsOrthogonal r) (bi bf : V3 ℝ) :
     qElements lam (M3.mulVec r bi) (M3.mulVec r bf) = M3.mulVec r (qElements lam bi bf) := by
-  simp only [qElements]
+  simp only [qElements, qElementsCast]
   rw [norm_mulVec_of_orthogonal r hr bi, norm_mulVec_of_orthogonal r hr bf]
   simp only [M3.mulVec, V3.sub, V3.sdiv]
   congr 1 <;> ring
